@@ -679,3 +679,239 @@ func rfc3597Whole(c *Ctx, r *Report, rule string) {
 		r.undecided(rule, "RFC3597.fromRFC3597", c.pos(fn.Pos()), "no call of the known type's unpack found")
 	}
 }
+
+// c07RdataErrorRebuild: ZoneParser.Next re-issues the RDATA parser's error with the file name filled in. The new
+// error keeps all of the old one: the message, the wrapped error (several parsers report through wrappedErr only),
+// and the failing token - or the current token when the parser gave none.
+func c07RdataErrorRebuild(c *Ctx, r *Report, rule string) {
+	nx := c.ssaFunc("ZoneParser.Next")
+	if nx == nil {
+		r.cerr(rule, "ZoneParser.Next", "function not found")
+		return
+	}
+	var perr ssa.Value
+	allInstrs(nx, func(in ssa.Instruction) {
+		if call, ok := in.(*ssa.Call); ok && call.Call.IsInvoke() && call.Call.Method.Name() == "parse" {
+			perr = call
+		}
+	})
+	if perr == nil {
+		r.undecided(rule, "Next:rdata-error", c.pos(nx.Pos()), "the call of the RDATA parser was not found")
+		return
+	}
+	fromErr := func(field string) vpred {
+		return func(v ssa.Value) bool {
+			ld, ok := v.(*ssa.UnOp)
+			if !ok || ld.Op != token.MUL {
+				return false
+			}
+			fa, ok := ld.X.(*ssa.FieldAddr)
+			return ok && fa.X == perr && fieldNameOf(fa) == field
+		}
+	}
+	var ps []string
+	// where the message goes
+	rebuilt := 0
+	allInstrs(nx, func(in ssa.Instruction) {
+		switch t := in.(type) {
+		case ssa.CallInstruction:
+			if calleeNameSSA(t.Common()) == "(ZoneParser).setParseError" && anyIn(sliceOf(t.Common().Args[1]), fromErr("err")) {
+				rebuilt++
+				ps = append(ps, fmt.Sprintf("%s: only the message string of the RDATA parser's error is passed on; an error reported through wrappedErr (APL, IPSECKEY / AMTRELAY gateways, SVCB values, private types) has an empty message, so its text and errors.Unwrap are lost", c.pos(in.Pos())))
+			}
+		case *ssa.Store:
+			fa, ok := t.Addr.(*ssa.FieldAddr)
+			if !ok || fieldNameOf(fa) != "err" || !fromErr("err")(t.Val) {
+				return
+			}
+			if nm := derefNamed(fa.X.Type()); nm == nil || nm.Obj().Name() != "ParseError" {
+				return
+			}
+			rebuilt++
+			got := map[string]ssa.Value{}
+			for _, ref := range *fa.X.Referrers() {
+				if f2, ok := ref.(*ssa.FieldAddr); ok {
+					for _, r2 := range *f2.Referrers() {
+						if s, ok := r2.(*ssa.Store); ok {
+							got[fieldNameOf(f2)] = s.Val
+						}
+					}
+				}
+			}
+			if v := got["file"]; v == nil || !anyIn(sliceOf(v), readsField("ZoneParser", "file")) {
+				ps = append(ps, fmt.Sprintf("%s: the re-issued error does not carry zp.file", c.pos(in.Pos())))
+			}
+			if v := got["wrappedErr"]; v == nil || !fromErr("wrappedErr")(v) {
+				ps = append(ps, fmt.Sprintf("%s: the re-issued error drops wrappedErr: errors reported through it lose their text and errors.Unwrap", c.pos(in.Pos())))
+			}
+			if v := got["lex"]; v == nil || !fromErr("lex")(v) {
+				ps = append(ps, fmt.Sprintf("%s: the re-issued error does not carry the failing token", c.pos(in.Pos())))
+			} else {
+				// a position-less error gets the current token: a store into err.lex under err.lex == lex{}
+				sub := false
+				allInstrs(nx, func(x ssa.Instruction) {
+					s, ok := x.(*ssa.Store)
+					if !ok {
+						return
+					}
+					f2, ok := s.Addr.(*ssa.FieldAddr)
+					if !ok || f2.X != perr || fieldNameOf(f2) != "lex" {
+						return
+					}
+					for _, f := range factsAt(nx, s.Block()) {
+						if b, ok := f.Atom.(*ssa.BinOp); ok && (b.Op == token.EQL || b.Op == token.NEQ) && anyIn(sliceOf(b), fromErr("lex")) {
+							sub = true
+						}
+					}
+				})
+				if !sub {
+					ps = append(ps, fmt.Sprintf("%s: a position-less rdata error is re-issued without substituting the current token", c.pos(in.Pos())))
+				}
+			}
+		}
+	})
+	if rebuilt == 0 {
+		r.undecided(rule, "Next:rdata-error", c.pos(nx.Pos()), "the RDATA parser's error is not re-issued in a recognised way")
+		return
+	}
+	r.check(len(ps) == 0, rule, "Next:rdata-error", c.pos(perr.Pos()), "file, message, wrapped error, token", "%s", strings.Join(ps, "; "))
+}
+
+// headerWritten: packRR patches the RDLENGTH into the two octets before headerEnd; that is only sound when
+// packHeader, on every success return, has written the whole fixed part of the header (name, type, class, TTL and the
+// RDLENGTH placeholder). A success return that skips the writes (an "at the end of the buffer" shortcut) makes packRR
+// overwrite the tail of the previous record, or slice msg[-2:] on a short buffer.
+func headerWritten(c *Ctx, r *Report, rule, consequence string) {
+	r.rule(rule, 1, "every success return of RR_Header.packHeader has passed the writes of name, type, class, TTL and the RDLENGTH placeholder")
+	fn := c.ssaFunc("RR_Header.packHeader")
+	if fn == nil {
+		r.cerr(rule, "RR_Header.packHeader", "function not found")
+		return
+	}
+	r.fn("RR_Header.packHeader")
+	want := []string{"packDomainName", "packUint16", "packUint16", "packUint32", "packUint16"}
+	var calls []ssa.CallInstruction
+	allInstrs(fn, func(in ssa.Instruction) {
+		if ci, ok := in.(ssa.CallInstruction); ok {
+			switch calleeNameSSA(ci.Common()) {
+			case "packDomainName", "packUint16", "packUint32":
+				calls = append(calls, ci)
+			}
+		}
+	})
+	var ps []string
+	if len(calls) != len(want) {
+		ps = append(ps, fmt.Sprintf("%d field writes, expected %d", len(calls), len(want)))
+	}
+	for _, ci := range calls {
+		removed := map[*ssa.BasicBlock]bool{ci.Block(): true}
+		reached := reach(fn.Blocks[0], nil, removed)
+		if removed[fn.Blocks[0]] {
+			continue
+		}
+		for b := range reached {
+			ret, ok := b.Instrs[len(b.Instrs)-1].(*ssa.Return)
+			if !ok || len(ret.Results) != 2 {
+				continue
+			}
+			if k, isK := ret.Results[1].(*ssa.Const); isK && k.Value == nil {
+				ps = append(ps, fmt.Sprintf("the success return at %s is reached without the %s at %s", c.pos(ret.Pos()), calleeNameSSA(ci.Common()), c.pos(ci.Pos())))
+			}
+		}
+	}
+	r.check(len(ps) == 0, rule, "RR_Header.packHeader", c.pos(fn.Pos()), "5 writes on every success path", "%s: %s", strings.Join(uniqStrings(ps), "; "), consequence)
+}
+
+// c16CopyTo: Msg.CopyTo(dst) writes dst's section slices before it reads the receiver's: it must stand aside when
+// dst is the receiver; and the copy equals the source only if every section of dst is assigned on every path (a
+// destination that is reused keeps nothing of its own).
+func c16CopyTo(c *Ctx, r *Report, rule string) {
+	r.rule(rule, 2, "Msg.CopyTo returns at once when the destination is the receiver, and otherwise assigns Question, Answer, Ns and Extra of the destination on every path")
+	fn := c.ssaFunc("Msg.CopyTo")
+	if fn == nil || len(fn.Params) < 2 {
+		r.cerr(rule, "Msg.CopyTo", "function not found")
+		return
+	}
+	r.fn("Msg.CopyTo")
+	src, dst := fn.Params[0], fn.Params[1]
+	var guardRet *ssa.BasicBlock
+	for _, b := range fn.Blocks {
+		iff, ok := b.Instrs[len(b.Instrs)-1].(*ssa.If)
+		if !ok {
+			continue
+		}
+		bin, ok := iff.Cond.(*ssa.BinOp)
+		if !ok || (bin.Op != token.EQL && bin.Op != token.NEQ) {
+			continue
+		}
+		if !((bin.X == ssa.Value(src) && bin.Y == ssa.Value(dst)) || (bin.X == ssa.Value(dst) && bin.Y == ssa.Value(src))) {
+			continue
+		}
+		t := b.Succs[0]
+		if bin.Op == token.NEQ {
+			t = b.Succs[1]
+		}
+		if _, isRet := t.Instrs[len(t.Instrs)-1].(*ssa.Return); isRet && b == fn.Blocks[0] {
+			guardRet = t
+		}
+	}
+	selfSafe := guardRet != nil
+	if !selfSafe {
+		// the other sound shape: every section of the receiver is read before any section of dst is written
+		selfSafe = true
+		sections := []string{"Question", "Answer", "Ns", "Extra"}
+		for _, wf := range sections {
+			for _, st := range storesToField(fn, "Msg", wf) {
+				fa, ok := st.Addr.(*ssa.FieldAddr)
+				if !ok || fa.X != ssa.Value(dst) {
+					continue
+				}
+				after := reach(st.Block(), nil, nil)
+				allInstrs(fn, func(in ssa.Instruction) {
+					ld, ok := in.(*ssa.UnOp)
+					if !ok || ld.Op != token.MUL {
+						return
+					}
+					lf, ok := ld.X.(*ssa.FieldAddr)
+					if !ok || lf.X != ssa.Value(src) {
+						return
+					}
+					isSection := false
+					for _, s2 := range sections {
+						if fieldNameOf(lf) == s2 {
+							isSection = true
+						}
+					}
+					if !isSection {
+						return
+					}
+					if (ld.Block() == st.Block() && instrIndex(ld) > instrIndex(st)) || (ld.Block() != st.Block() && after[ld.Block()]) {
+						selfSafe = false
+					}
+				})
+			}
+		}
+	}
+	r.check(selfSafe, rule, "Msg.CopyTo:self", c.pos(fn.Pos()), "dst == receiver returns first (or all reads precede all writes)", "CopyTo re-slices the destination's Answer, Ns and Extra to empty before it ranges over the receiver's; without a `dst == receiver` test first, m.CopyTo(m) empties the message it was asked to copy (a read-only operation destroying its argument)")
+	var ps []string
+	for _, field := range []string{"Question", "Answer", "Ns", "Extra"} {
+		removed := map[*ssa.BasicBlock]bool{}
+		for _, st := range storesToField(fn, "Msg", field) {
+			if fa, ok := st.Addr.(*ssa.FieldAddr); ok && fa.X == ssa.Value(dst) {
+				removed[st.Block()] = true
+			}
+		}
+		if removed[fn.Blocks[0]] {
+			continue
+		}
+		for b := range reach(fn.Blocks[0], nil, removed) {
+			if b == guardRet {
+				continue
+			}
+			if ret, ok := b.Instrs[len(b.Instrs)-1].(*ssa.Return); ok {
+				ps = append(ps, fmt.Sprintf("the return at %s is reached without dst.%s having been assigned", c.pos(ret.Pos()), field))
+			}
+		}
+	}
+	r.check(len(ps) == 0, rule, "Msg.CopyTo:sections", c.pos(fn.Pos()), "4 sections on every path", "%s: a destination that held another message keeps that section, so the copy differs from its source", strings.Join(uniqStrings(ps), "; "))
+}
